@@ -108,6 +108,11 @@ func argVars(last bool, appendMsg bool) []ArgVar {
 		vs = append(vs, ArgVar{Enc: "lit", Sync: sync, Size: 1, Class: "plain", Anomaly: "short"})
 		vs = append(vs, ArgVar{Enc: "lit", Sync: sync, Size: 4096, Class: "cmdlike", Anomaly: "short"})
 		vs = append(vs, ArgVar{Enc: "lit", Sync: sync, Size: 4097, Class: "cmdlike", Anomaly: "short"})
+		// sizes whose low 32 bits are small (number64 in the grammar, int64 in the decoder: a
+		// narrower comparison anywhere on the way would see 0 / 1 / 4096)
+		vs = append(vs, ArgVar{Enc: "lit", Sync: sync, Size: 1 << 32, Class: "cmdlike", Anomaly: "short"})
+		vs = append(vs, ArgVar{Enc: "lit", Sync: sync, Size: 1<<32 + 1, Class: "cmdlike", Anomaly: "short"})
+		vs = append(vs, ArgVar{Enc: "lit", Sync: sync, Size: 1<<33 + 4096, Class: "cmdlike", Anomaly: "short"})
 		if last {
 			// actual > announced: junk between the literal and the end of the line
 			vs = append(vs, ArgVar{Enc: "lit", Sync: sync, Size: 1, Class: "plain", Anomaly: "junk"})
